@@ -395,6 +395,53 @@ def gen(rng, backend):
     return {"values": vals, "stream": "list:" + ("homog" if homog else "mixed"), "container": "tuple" if rng.random() < 0.3 else "list"}
 
 
+# C07 for the sequence back ends (their documented subset): a family carried by a representation the back end supports is
+# recognised as that family (its type lies on the inference path) — expectations are the semantic ones; representations
+# the back end does not support (numpy: dates, urls, ... stay Object / String) are not listed
+FAMILY_SEQ = {
+    "list": [("ints", [["int", -1], ["int", 2], ["int", 30]], "Integer"), ("counts", [["int", 1], ["int", 2]], "Integer"),
+             ("floats", [["float", 1.5], ["float", 2.5]], "Float"), ("integral floats", [["float", 1.0], ["float", 2.0]], "Integer"),
+             ("bools", [["bool", True], ["bool", False]], "Boolean"), ("text", [["str", "hello"], ["str", "a b"]], "String"),
+             ("int strings", [["str", "10001"], ["str", "20002"]], "Integer"), ("float strings", [["str", "1.5"], ["str", "2.25"]], "Float"),
+             ("bool strings", [["str", "true"], ["str", "false"]], "Boolean"), ("complex", [["complex", 1, 2], ["complex", 0, 3]], "Complex"),
+             ("zero-imaginary complex", [["complex", 1, 0], ["complex", 2, 0]], "Float"), ("complex strings", [["str", "1+2j"], ["str", "3j"]], "Complex"),
+             ("datetimes", [["dt", "2020-01-01T10:00:00"], ["dt", "2021-05-06T01:02:03"]], "DateTime"), ("dates", [["date", "2020-01-01"]], "Date"),
+             ("times", [["time", "10:00:00"]], "Time"), ("timedeltas", [["td", 432000]], "TimeDelta"),
+             ("datetime strings", [["str", "2020-01-01 10:30:00"], ["str", "2021-05-06 01:02:03"]], "DateTime"),
+             ("url strings", [["str", "http://a.b/c"], ["str", "https://x.y/z"]], "URL"), ("path strings", [["str", "/home/u/f.txt"], ["str", "/a"]], "Path"),
+             ("ip strings", [["str", "127.0.0.1"], ["str", "::1"]], "IPAddress"), ("email strings", [["str", "test@example.com"]], "EmailAddress"),
+             ("geometry strings", [["str", "POINT (1 2)"]], "Geometry")],
+    "numpy": [("ints", [["int", -1], ["int", 2], ["int", 30]], "Integer"), ("floats", [["float", 1.5], ["float", 2.5]], "Float"),
+              ("integral floats", [["float", 1.0], ["float", 2.0]], "Integer"), ("bools", [["bool", True], ["bool", False]], "Boolean"),
+              ("text", [["str", "hello"], ["str", "a b"]], "String"), ("int strings", [["str", "10001"], ["str", "20002"]], "Integer"),
+              ("float strings", [["str", "1.5"], ["str", "2.25"]], "Float"), ("bool strings", [["str", "true"], ["str", "false"]], "Boolean"),
+              ("complex", [["complex", 1, 2], ["complex", 0, 3]], "Complex"), ("zero-imaginary complex", [["complex", 1, 0], ["complex", 2, 0]], "Float"),
+              ("complex strings", [["str", "1+2j"], ["str", "3j"]], "Complex"),
+              ("datetimes", [["npdt", "2020-01-01T10:00"], ["npdt", "2021-05-06T01:02:03"]], "DateTime"),
+              ("timedeltas", [["nptd", 1], ["nptd", 5]], "TimeDelta"),
+              ("datetime strings", [["str", "2020-01-01 10:30:00"], ["str", "2021-05-06 01:02:03"]], "DateTime")],
+}
+
+
+def family_seq(backend):
+    fails = []
+    order = STD if backend == "numpy" else COMPLETE
+    ts = typeset_for(order)
+    n = 0
+    for fam, vals, want in FAMILY_SEQ[backend]:
+        for container in (("list", "tuple") if backend == "list" else ("numpy",)):
+            for k in (1, 3):
+                rec = {"values": vals * k, "stream": "family:" + fam}
+                x = build(rec, container)
+                r = outcome(lambda: [str(t) for t in ts.infer(x)[1]])
+                n += 1
+                if r[0] != "ok" or want not in r[1]:
+                    fails.append({"property": "C07", "signature": "%s:family-not-recognised:%s" % (backend, fam),
+                                  "what": "[%s] %s as a %s: inferred %s, expected %s on the path" % (backend, fam, container, r[1], want),
+                                  "recipe": dict(rec, container=container)})
+    return fails, n
+
+
 def _worker(args):
     recipes, backend = args
     G.files_dir()
@@ -449,6 +496,9 @@ def run_backend(tier, seed, backend, n=None, nproc=16):
         outs = pool.map(_worker, [(c, backend) for c in chunks if c])
     obs = [o for ch in outs for o in ch]
     fails = [f for o in obs for f in o["fails"]]
+    G.files_dir()
+    ffails, nfam = family_seq(backend)
+    fails += ffails
     crashes = [o for o in obs if "crash" in o]
     nontriv = set(canon(o["recipe"]["values"]) for o in obs if isinstance(o.get("infer"), list) and len(o["infer"]) >= 2)
     dist = {}
